@@ -153,6 +153,8 @@ class Seams:
         self.wopen_paths = []  # type: typing.List[str]
         self.fault = plan.get("fault")
         self.read_faults = dict(plan.get("read_faults") or {})  # type: typing.Dict[str, str]
+        self.stream_fault = None  # type: typing.Optional[dict]
+        self.stream_calls = 0
         self.fault_fired = None  # type: typing.Optional[str]
         self.extprog_calls = 0
         self.enum_calls = {}  # type: typing.Dict[str, int]
@@ -464,6 +466,8 @@ class Seams:
             pp.subprocess_run = self._fake_subprocess_run  # type: ignore
         if plan.get("chunk_seed") is not None:
             self._install_rechunker(plan["chunk_seed"])
+        elif plan.get("stream_fault_seam"):
+            self._install_stream_fault()
         if plan.get("extra_support_files"):
             self._install_extra_support_files(plan["extra_support_files"])
         builtins.open = self._open  # type: ignore
@@ -495,6 +499,37 @@ class Seams:
                     yield p
 
         mod.list_support_files = list_support_files  # type: ignore
+
+    def _install_stream_fault(self) -> None:
+        """The chunk source of a file (the template, a filter, an {% assert %}) raises after some characters were already handed
+        over - usually in the middle of a line. Armed through ``self.stream_fault = {"call": n, "after_chars": k}``; calls are
+        counted from ``self.stream_calls`` (reset by the simulation before each invocation)."""
+        from nunavut.jinja.jinja2 import Template
+
+        real_generate = Template.generate
+        seams = self
+
+        class TemplateStreamFault(RuntimeError):
+            pass
+
+        def generate(tself: typing.Any, *a: typing.Any, **kw: typing.Any) -> typing.Iterator[str]:
+            n = seams.stream_calls
+            seams.stream_calls += 1
+            flt = seams.stream_fault
+            gen = real_generate(tself, *a, **kw)
+            if flt is None or seams.fault_fired or flt.get("call") != n:
+                yield from gen
+                return
+            emitted = 0
+            for chunk in gen:
+                if emitted + len(chunk) > flt["after_chars"]:
+                    yield chunk[: flt["after_chars"] - emitted]
+                    seams.fire("stream_fault call=%d" % n)
+                    raise TemplateStreamFault("the template raised after %d characters" % flt["after_chars"])
+                emitted += len(chunk)
+                yield chunk
+
+        Template.generate = generate  # type: ignore
 
     def _install_rechunker(self, seed: int) -> None:
         from nunavut.jinja.jinja2 import Template
